@@ -252,6 +252,78 @@ pub fn run(tier: Tier) -> i32 {
         }
     }
 
+    // 6. pc-relative operands directly behind in-code data: `pc` is the address of the
+    //    instruction itself, whatever precedes it
+    let mut n_pc_after_data = 0usize;
+    {
+        let datas: [(&str, Vec<u8>); 6] = [
+            (".dw 0x1111", vec![0x11, 0x11]),
+            (".db 1, 2, 3", vec![1, 2, 3, 0]),
+            (".db \"a\"", vec![b'a', 0]),
+            (".dd 0x01020304", vec![4, 3, 2, 1]),
+            (".dq 0x0102030405060708", vec![8, 7, 6, 5, 4, 3, 2, 1]),
+            (".dw 1, 2, 3", vec![1, 0, 2, 0, 3, 0]),
+        ];
+        let rels: Vec<ICase> = small.iter().filter(|c| icase::is_relative(c.mnem)).filter(|c| matches!(c.ops.last(), Some(Opnd::Imm(d)) if [-64i64, -2, -1, 0, 1, 63, -2048, 2047].contains(d))).cloned().collect();
+        for (dt, db) in datas.iter() {
+            for c in rels.iter() {
+                for lead in [0usize, 1, 3] {
+                    let mut src = String::new();
+                    let mut want: Vec<u8> = vec![];
+                    for _ in 0..lead {
+                        src.push_str("nop\n");
+                        want.extend([0, 0]);
+                    }
+                    src.push_str(dt);
+                    src.push('\n');
+                    want.extend(db.iter());
+                    src.push_str(&c.text());
+                    src.push('\n');
+                    want.extend(icase::expect_bytes(Core::Full, c).unwrap());
+                    src.push_str(&c.text());
+                    src.push_str("\nnop\n");
+                    want.extend(icase::expect_bytes(Core::Full, c).unwrap());
+                    want.extend([0, 0]);
+                    let o = sut::build_str(&src);
+                    n_pc_after_data += 1;
+                    stats.cases.fetch_add(1, Ordering::Relaxed);
+                    if !matches!(&o, Outcome::Ok(bu) if bu.code == want) {
+                        rep.violation(&format!("C01/pc-operand-after-data/mnem={}/data={}", c.mnem, dt.split(' ').next().unwrap()), || format!("`{}` directly after `{}` must assemble to {} but {}", c.text(), dt, sut::hex(&want), o.to_json()), || json!({"kind": "build_str", "source": src, "expected": {"result": "ok", "code": sut::hex(&want)}, "observed": o.to_json()}));
+                    }
+                }
+            }
+        }
+    }
+    // 7. one large program whose operands are constants defined by expressions: the
+    //    encoding of an instruction does not depend on how many were assembled before it
+    let n_large;
+    {
+        let mut src = String::from(".equ e_one = 1 + 1\n.equ e_two = e_one * 2\n.equ e_three = e_two + e_one\n");
+        let mut want: Vec<u8> = vec![];
+        let lines = if tier.thorough() { 120_000 } else { 40_000 };
+        let a = isa::words_to_bytes(&isa::encode(Core::Full, "cpi", &[Opnd::Reg(16), Opnd::Imm(6)]).unwrap());
+        let b = isa::words_to_bytes(&isa::encode(Core::Full, "ldi", &[Opnd::Reg(17), Opnd::Imm(4)]).unwrap());
+        for i in 0..lines {
+            if i % 2 == 0 {
+                src.push_str("cpi r16, e_three\n");
+                want.extend(a.iter());
+            } else {
+                src.push_str("ldi r17, low(e_two)\n");
+                want.extend(b.iter());
+            }
+        }
+        n_large = lines;
+        let o = sut::build_str(&src);
+        stats.cases.fetch_add(lines as u64, Ordering::Relaxed);
+        if !matches!(&o, Outcome::Ok(bu) if bu.code == want) {
+            let detail = match &o {
+                Outcome::Ok(bu) => format!("the image differs (first difference at byte {})", bu.code.iter().zip(want.iter()).position(|(x, y)| x != y).unwrap_or(bu.code.len().min(want.len()))),
+                other => format!("{}", other.to_json()),
+            };
+            rep.violation("C01/large-symbolic-program", || format!("{} alternating `cpi r16, e_three` / `ldi r17, low(e_two)` lines (constants defined by expressions) must assemble line by line, but {}", lines, detail), || json!({"kind": "build_str", "source": format!("{}… ({} lines in all)", &src[..300], lines + 3), "observed": detail}));
+        }
+    }
+
     let total = stats.cases.load(Ordering::Relaxed);
     rep.guard(n_small > 90_000, "small operand spaces shrank");
     rep.guard(ncls >= 110 && ncls <= 130, "unexpected number of mnemonic classes");
@@ -276,7 +348,7 @@ pub fn run(tier: Tier) -> i32 {
         "rule": "every legal operand tuple of every mnemonic (full core: all small spaces + lds/sts 32x2^16 + jmp/call 2^22; reduced core: lds/sts 16x128), packed 4096 per program and localised one-per-build on any mismatch; distinct_nontrivial = distinct reference encodings among the single-instruction cases (every case emits >= 1 word, so all are non-trivial)",
         "exhaustive": true,
         "space": {"small_full_core": n_small, "big_full_core": icase::BIG_TOTAL, "reduced_core": n_red,
-                  "adjacent_class_pairs": n_pairs, "adjacent_class_triples": n_triples, "mnemonic_classes": ncls, "label_operand_programs": n_label_programs},
+                  "adjacent_class_pairs": n_pairs, "adjacent_class_triples": n_triples, "mnemonic_classes": ncls, "label_operand_programs": n_label_programs, "pc_operand_after_data_programs": n_pc_after_data, "lines_of_the_large_symbolic_program": n_large},
         "batches": stats.batches.load(Ordering::Relaxed),
         "batches_localised_one_per_build": stats.localised.load(Ordering::Relaxed),
         "reference_self_check": {"first_words_decoded": sc.decoded_first_words, "first_words_unknown": sc.unknown_first_words, "roundtrips": sc.roundtrips},
